@@ -608,6 +608,12 @@ func (e *Env) call(x *ECall) (Val, types.Type) {
 			return mkInt(fmt.Sprintf("(scap %s)", v.T)), lenTy
 		}
 		return e.fail("cap of %s", ty)
+	case "closed":
+		v, ty := arg(0)
+		if _, ok := ty.Underlying().(*types.Chan); !ok {
+			return e.fail("closed() needs a channel")
+		}
+		return Val{T: fmt.Sprintf("(select %s %s)", t.get(e.st, t.chanClosedVar(ty).Name), v.T)}, tBool
 	case "sent", "recvd", "lastsent":
 		// ghost channel counters: completed sends / receives on this channel, last value sent
 		v, ty := arg(0)
